@@ -604,7 +604,7 @@ class TimeConverter(JsonConverter[Time, np.timedelta64]):
         if isinstance(value, Time):
             return str(value)
         elif isinstance(value, datetime.time):
-            return value.isoformat()
+            return str(Time.from_time(value))
 
         raise ValueError(f"Value in not a time: {value}")
 
@@ -629,7 +629,9 @@ class DateTimeConverter(JsonConverter[DateTime, np.datetime64]):
         if isinstance(value, DateTime):
             return str(value)
         elif isinstance(value, datetime.datetime):
-            return value.isoformat()
+            # the same text as for a DateTime (isoformat() writes an offset such as +00:00,
+            # which the readers do not parse, and no fraction when the microsecond is 0)
+            return str(DateTime.from_datetime(value))
 
         raise ValueError(f"Value in not a datetime: {value}")
 
